@@ -10,11 +10,19 @@
 EXTENDS Traversal, TraversalGenBase, Json
 
 
-GenCases == CASE Mode = "plain" -> CasesPlain [] Mode = "ctl" -> CasesCtl [] Mode = "subset" -> CasesSubset
+\* Mode "file": cases written by the Go side (vh walk-gen: random graphs, selectors and controls beyond the bounds
+\* enumerated here); the specification only evaluates them.
+FileCases ==
+  LET raw == ndJsonDeserialize("trace.ndjson") IN
+  {[g |-> raw[i].g, sel |-> raw[i].sel,
+    cfg |-> [nb |-> raw[i].cfg.nb, lb |-> raw[i].cfg.lb, start |-> raw[i].cfg.start, once |-> raw[i].cfg.once,
+             skip |-> {j \in DOMAIN raw[i].cfg.skip : raw[i].cfg.skip[j]}]] : i \in DOMAIN raw}
+
+GenCases == CASE Mode = "file" -> FileCases [] Mode = "plain" -> CasesPlain [] Mode = "ctl" -> CasesCtl [] Mode = "subset" -> CasesSubset
               [] Mode = "plain3" -> CasesPlain3 [] Mode = "plainonce" -> CasesPlainOnce [] Mode = "ctl2" -> CasesCtl2
 
 Emit == done => PrintT(ToJson([g |-> case.g, sel |-> case.sel,
                                cfg |-> [nb |-> Cfg.nb, lb |-> Cfg.lb, start |-> Cfg.start, once |-> Cfg.once,
                                         skip |-> [i \in 1..Len(case.g) |-> i \in Cfg.skip]],
-                               visits |-> visits, loads |-> loads, err |-> err]))
+                               visits |-> visits, loads |-> loads, err |-> err, compiles |-> Compiles(case.sel, FALSE)]))
 =============================================================================
